@@ -476,23 +476,68 @@ func (c *Ctx) genFilter() map[string]interface{} {
 	if c.chance(0.06) {
 		f["type"] = c.one([]string{"Deny", "DENY", "Allow"})
 	}
-	switch c.pick(4) {
+	switch c.pick(6) {
 	case 0:
 		f["users"] = []string{c.one(plPatterns)}
 	case 1:
 		f["users"] = c.some(plUsers, 3)
 	case 2:
 		f["users"] = []string{c.one(plUsers)}
+	case 3:
+		f["users"] = c.mixedList(plUsers, plJunkUsers)
 	}
-	switch c.pick(5) {
+	switch c.pick(7) {
 	case 0:
 		f["groups"] = []string{c.one(plGroupPatterns)}
 	case 1:
 		f["groups"] = c.some(plGroups, 3)
 	case 2:
 		f["groups"] = []string{c.one(plGroups)}
+	case 3:
+		f["groups"] = c.mixedList(plGroups, plJunkGroups)
+	}
+	if c.chance(0.12) {
+		// only lists without a usable entry: the filter is not empty and matches nobody
+		delete(f, "users")
+		delete(f, "groups")
+		if c.chance(0.6) {
+			f["users"] = c.junkList(plJunkUsers)
+		}
+		if f["users"] == nil || c.chance(0.3) {
+			f["groups"] = c.junkList(plJunkGroups)
+		}
 	}
 	return f
+}
+
+// entries newFilter cannot use in a list of two or more: invalid characters, regexp-looking, empty, leading digit
+var (
+	plJunkUsers  = []string{"al*", "bo*", "", "1abc", "a b", "bob!", "^a.*", "caro|", "-x", "bob$$"}
+	plJunkGroups = []string{"dev@corp", "ops@corp", "gr*", "", "9g", "a/b", "bob$", "d v", "#g", "^d.*"}
+)
+
+// junkList: two to four entries, none a usable name
+func (c *Ctx) junkList(junk []string) []string {
+	out := []string{}
+	for n := 2 + c.pick(3); n > 0; n-- {
+		out = append(out, c.one(junk))
+	}
+	return out
+}
+
+// mixedList: two to four entries of which none / some / all are usable names
+func (c *Ctx) mixedList(good, junk []string) []string {
+	mode := c.pick(3)
+	out := []string{}
+	for n := 2 + c.pick(3); n > 0; n-- {
+		switch {
+		case mode == 0 || (mode == 1 && c.chance(0.5)):
+			out = append(out, c.one(junk))
+		default:
+			out = append(out, c.one(good))
+		}
+	}
+	return out
 }
 
 func stripRoot(p string) string { return strings.TrimPrefix(p, "root.") }
